@@ -58,6 +58,16 @@ CLAIMED = {
    text="Generated-input search: 250 (quick) cases over 14 allocation patterns (acyclic and cyclic garbage of cycle length 1-9 through boxes, vectors, make-vector, struct fields and mixes, self-capturing closures, garbage held by dropped continuations and by joined threads, hash maps of boxes, grown-and-dropped lists) with a live set of 0-40 boxes, n then 4n more iterations (n up to 40000; thorough 3*10^6), natural or forced collections; after a requested full collection the live slot counts of both free lists must not depend on the iteration count, and under forced collections the free lists' sizes must stay bounded; one weak-box scenario. JIT on/off.",
    note="Trusted: hooks #%verif-heap-stats and gc-stress (steel-core feature verif). Unbounded growth of the free lists under *natural* collections needs >5*10^7 allocations to tell from the normal double-until-compaction sawtooth (peak 2.6*10^7 slots) and is only checked through the live counts in the quick tier; process-level memory is not measured.",
    design="DESIGN.md section 4, C19"),
+ "C15": dict(
+   technique="property-based testing of generated multi-threaded programs under fault injection (gc-stress: a world-stopping full collection forced every 40-1000 allocations on whichever thread allocates), with per-thread invariants (private graph checksum, accumulator), visibility of global assignments after a channel handshake, and the heap hooks; the OS owns the schedule",
+   text="Generated-input search: 100 (quick) programs with 1-8 native worker threads x 50-2000 iterations under forced world-stopping collections and global definitions / assignments by the main thread; checked: every worker's final accumulator and private-graph checksum, the global a worker reads after receiving the main thread's i-th value (>= i), stale-handle hook, crashes, completion. Weak: the schedule is not controlled, so a violation that needs a particular interleaving is found only by chance, and the 'being scanned' flag hook the property names is not implemented - only consequences are observed.",
+   note="Trusted: hooks gc-stress / stale-handle (feature verif). Several genuine, schedule dependent defects are listed as known findings (a worker's live data swept by another thread's collection; deadlock of forced collections; slot dropped by another thread's compaction) and matched by signature, which also means that a new defect with one of these symptoms is not distinguished from them.",
+   design="DESIGN.md section 4, C15"),
+ "C16": dict(
+   technique="property-based testing of generated multi-threaded programs (spawn, channels, blocking receives, joins in generated orders, global updates) with delivery and completion oracles; the OS owns the schedule",
+   text="Generated-input search: 250 (quick) programs with 1-8 native worker threads, a shared tick channel, one blocking channel per worker, 0-5 feed rounds, joins in spawn / reverse / looped / interleaved order, natural collections (3 in 4) or forced ones; checked: the program finishes (30 s, retried with 60 s; it needs well under a second), join results arrive exactly once with the worker's value, every sender's messages arrive exactly once and in order, workers' final state. JIT on/off.",
+   note="Trusted: the time limits as a deadlock detector (one retry). Weak for the same reason as C15: interleavings are sampled by the OS, not enumerated. Locks and higher-order blocking helpers beyond map / for-each are not generated. The worker-state and stale-handle symptoms of KF-C15-thread-roots-missed are tolerated here and reported by C15.",
+   design="DESIGN.md section 4, C16"),
  "C02": dict(
    technique="differential property-based testing: generated programs and evaluation histories run under 7 (quick) / 24 (thorough) combinations of the optimisation switches (JIT, inlining, recursive inlining, closure lifting, module inlining), all compared with each other and with the reference interpreter",
    text="Generated-input search: each generated program / history (same generators as C01 and C06) is executed in forked workers under every selected combination of STEEL_JIT, STEEL_INLINE, STEEL_INLINE_RECURSIVE, STEEL_CLOSURE_LIFTING and STEEL_MODULE_INLINE, as top-level text and as a module; values, output and outcome must be identical across configurations (and equal to the reference interpreter). A failure is classed jitdiv (only the JIT differs) or cfgdiv. Bounded by the generators; no proof.",
